@@ -41,12 +41,14 @@ func solverCmd(name string, file string, timeoutMs int, seed int) *exec.Cmd {
 // prelude builds everything before the obligation-specific assertion.
 func (tr *Tr) prelude(withCandidates bool) string {
 	var b strings.Builder
+	valOK := tr.valOKDef() // may add predecls and constructors
 	b.WriteString("(set-logic ALL)\n")
 	b.WriteString(tr.eng.sorts.declarations())
 	for _, d := range tr.predecls {
 		b.WriteString(d)
 		b.WriteByte('\n')
 	}
+	b.WriteString(valOK)
 	for _, d := range tr.decls {
 		b.WriteString(d)
 		b.WriteByte('\n')
@@ -211,6 +213,16 @@ func (tr *Tr) discharge(cfg *SolverCfg, workers int, keep func(o *Obligation) bo
 		}
 	}
 	pre := tr.prelude(true)
+	// vacuity guard: the assumptions (requires, stub contracts, invariants) must be satisfiable
+	{
+		ccfg := *cfg
+		ccfg.Race = false
+		if ccfg.TimeoutMs > 5000 {
+			ccfg.TimeoutMs = 5000
+		}
+		r := solveFast(pre, &ccfg, "cover")
+		tr.coverResult = r.status
+	}
 	var todo []*Obligation
 	for _, o := range tr.obls {
 		if o.Cand != nil {
